@@ -253,6 +253,8 @@ class _SimFile:
         if f and f[0] == "short_read":
             self.disk._fire("short_read")
             data = data[:f[1]]
+        if a and a[0] is not None and a[0] >= 0:
+            data = data[:a[0]]          # read(n): at most n characters
         self.pos += len(data)
         if self.enc:
             data = data.encode("utf-8", "surrogateescape").decode(self.enc)
